@@ -31,7 +31,6 @@ import cgi
 import threading
 
 from inspect import isgenerator
-from itertools import chain
 
 from spyne import Address, File, Fault
 from spyne.util.six.moves.http_cookies import SimpleCookie
@@ -156,6 +155,20 @@ def _get_http_headers(req_env):
             logger.debug("Add http header %r = %r", key, val)
 
     return retval
+
+
+def _rest_of_user_generator(first_obj, g, errors):
+    """Puts back the object that was taken from a user generator to make it
+    run up to its first yield, and notes what the generator raises later on so
+    that it can be told from a failure of the serializer."""
+
+    yield first_obj
+    try:
+        for obj in g:
+            yield obj
+    except Exception as e:
+        errors.append(e)
+        raise
 
 
 def _gen_http_headers(headers):
@@ -479,6 +492,7 @@ class WsgiApplication(HttpBase):
         # whatnot before calling start_response. It's important to run this
         # here before serialization as the user function can also set output
         # protocol. Is there a better way?
+        user_errors = []
         if is_generator:
             try:
                 first_obj = next(g)
@@ -496,7 +510,8 @@ class WsgiApplication(HttpBase):
                 return self.handle_error(p_ctx, others, p_ctx.out_error,
                                                                  start_response)
             else:
-                p_ctx.out_object = ( chain((first_obj,), g), )
+                p_ctx.out_object = ( _rest_of_user_generator(first_obj, g,
+                                                                 user_errors), )
 
         if p_ctx.transport.resp_code is None:
             p_ctx.transport.resp_code = HTTP_200
@@ -505,8 +520,15 @@ class WsgiApplication(HttpBase):
             self.get_out_string(p_ctx)
 
         except Exception as e:
-            logger.exception(e)
-            p_ctx.out_error = Fault('Server', get_fault_string_from_exception(e))
+            if len(user_errors) > 0 and isinstance(user_errors[0], Fault):
+                # the user generator raised a Fault after its first yield
+                p_ctx.out_error = user_errors[0]
+            else:
+                logger.exception(e)
+                p_ctx.out_error = Fault('Server',
+                                             get_fault_string_from_exception(e))
+            if len(user_errors) > 0:
+                p_ctx.fire_event('method_exception_object')
             # drop the partially built response and its status so that the
             # fault is what gets serialized and reported
             p_ctx.out_document = None
